@@ -147,4 +147,15 @@ def hessian(poly: PolyLike) -> ndpoly:
                      [0, 0, 2*q0]]])
 
     """
-    return gradient(gradient(poly))
+    poly = numpoly.aspolynomial(poly)
+    polys = [
+        numpoly.concatenate(
+            [
+                derivative(poly, diffvar1, diffvar2)[numpy.newaxis]
+                for diffvar2 in poly.names
+            ],
+            axis=0,
+        )[numpy.newaxis]
+        for diffvar1 in poly.names
+    ]
+    return numpoly.concatenate(polys, axis=0)
